@@ -379,6 +379,67 @@ Proof. destruct os; reflexivity. Qed.
     induction ps as [|p ps IH]; [reflexivity|]. cbn [flat_map]. rewrite outs_of_app, outs_of_drain, IH. reflexivity.
   Qed.
 
+(* ------------------------------------------------------------------ whole histories *)
+
+Lemma msg_run_history {S M U O} (f : M -> bool * list out) (render : M -> out -> option O)
+    (process : S -> M -> S * list U) : forall ms s,
+  let acc := List.filter (fun m => fst (f m)) ms in
+  fst (msg_run (Some f) render process s ms) = fst (msg_run None render process s acc) /\
+  upds_of (snd (msg_run (Some f) render process s ms)) = upds_of (snd (msg_run None render process s acc)) /\
+  outs_of (snd (msg_run (Some f) render process s ms)) = flat_map (fun m => omap (render m) (snd (f m))) ms /\
+  outs_of (snd (msg_run None render process s acc)) = [].
+Proof.
+  induction ms as [|m ms IH]; intros s; cbn zeta; [repeat split; reflexivity|].
+  cbn [msg_run List.filter flat_map].
+  destruct (msg_outputs f render process s m) as [Ho _].
+  destruct (fst (f m)) eqn:Ev.
+  - destruct (msg_accept f render process s m Ev) as (H1 & H2 & _ & _).
+    cbn [msg_run]. rewrite (msg_no_filter render process s m).
+    destruct (msg_site (Some f) render process s m) as [s1 ds] eqn:E1. cbn [fst snd] in *.
+    destruct (process s m) as [s1' us] eqn:Ep. cbn [fst snd] in *. subst s1'.
+    specialize (IH s1). cbn zeta in IH. destruct IH as (I1 & I2 & I3 & I4).
+    destruct (msg_run (Some f) render process s1 ms) as [s2 ds2].
+    destruct (msg_run None render process s1 (List.filter (fun m => fst (f m)) ms)) as [s2' ds2'].
+    cbn [fst snd] in *. repeat split.
+    + exact I1.
+    + rewrite !upds_of_app, H2, I2, upds_of_upds. reflexivity.
+    + rewrite outs_of_app, Ho, I3. reflexivity.
+    + rewrite outs_of_app, outs_of_upds, I4. reflexivity.
+  - destruct (msg_reject f render process s m Ev) as (H1 & H2).
+    destruct (msg_site (Some f) render process s m) as [s1 ds] eqn:E1. cbn [fst snd] in *. subst s1.
+    specialize (IH s). cbn zeta in IH. destruct IH as (I1 & I2 & I3 & I4).
+    destruct (msg_run (Some f) render process s ms) as [s2 ds2].
+    cbn [fst snd] in *. repeat split.
+    + exact I1.
+    + rewrite upds_of_app, H2, I2. reflexivity.
+    + rewrite outs_of_app, Ho, I3. reflexivity.
+    + exact I4.
+Qed.
+
+Lemma rib_run_history {R P O} (f : P -> bool * list out) (render : P -> out -> option O)
+    (insert : R -> P -> R) : forall us r,
+  let acc := map (List.filter (fun p => fst (f p))) us in
+  fst (rib_run_site (Some f) render insert r us) = fst (rib_run_site None render insert r acc) /\
+  upds_of (snd (rib_run_site (Some f) render insert r us)) = upds_of (snd (rib_run_site None render insert r acc)) /\
+  outs_of (snd (rib_run_site (Some f) render insert r us)) =
+    flat_map (fun ps => flat_map (fun p => omap (render p) (snd (f p))) ps) us.
+Proof.
+  induction us as [|ps us IH]; intros r; cbn zeta; [repeat split; reflexivity|].
+  cbn [rib_run_site map flat_map].
+  destruct (rib_filtered_is_unfiltered_on_accepted f render insert r ps) as [H1 H2]. cbn zeta in H1, H2.
+  pose proof (rib_outputs f render insert r ps) as Ho.
+  destruct (rib_site (Some f) render insert r ps) as [r1 ds].
+  destruct (rib_site None render insert r (List.filter (fun p => fst (f p)) ps)) as [r1' ds1'].
+  cbn [fst snd] in *. subst r1'.
+  specialize (IH r1). cbn zeta in IH. destruct IH as (I1 & I2 & I3).
+  destruct (rib_run_site (Some f) render insert r1 us) as [r2 ds2].
+  destruct (rib_run_site None render insert r1 (map (List.filter (fun p => fst (f p))) us)) as [r2' ds2'].
+  cbn [fst snd] in *. repeat split.
+  - exact I1.
+  - rewrite !upds_of_app, H2, I2. reflexivity.
+  - rewrite outs_of_app, Ho, I3. reflexivity.
+Qed.
+
 (* ------------------------------------------------------------------ the renderers of the code *)
 
 Lemma render_spec_total route i o : is_Some (render_spec route i o).
